@@ -42,6 +42,18 @@ distances under that one set) are judged there, "M" = the run is also compared w
     kmerspec_k stored as int8 / int32 / uint8, prefix stored
     lower-case / as bytes, 64-bit values, gzip, metadata, 0 / 1 /
     12 signatures; database as refs.db + refs.h5, 32-bit k
+  pre-computed signatures SAVED BY ANOTHER PROGRAM through the    dist-api-written-signatures,                    P M
+    public API (gambit.sigs), every writing form: container       query-api-written-signatures                    (save refused:
+    {SignatureList, SignatureArray, from_arrays, copy of a        (40 forms x 2 of 9 scenarios quick, x 9         P; the command
+    container, selection} x its OPTIONAL kmerspec argument        thorough: vs genome files = parameters          is run on what
+    {given, not given} x {bare, AnnotatedSignatures} x            inferred from the file, vs a plain file, vs a   the failed call
+    {dump_signatures, HDF5Signatures.create}.  The case names     database, with -k/-p, --square, both sides      left behind)
+    what the signatures were BUILT with (the harness's k-mer      API-written, query -s)
+    sets); as found a container that was not told its
+    parameters cannot be saved (AttributeError): no file, no
+    comparison.  A file that claims other parameters than its
+    signatures were built with makes the command compare
+    differing sides silently -> run_ok false
   the real process: `python -m gambit`, its exit status, its      real-process (6 per quick run)                  P M
     stderr / stdout (query without -o), GAMBIT_DB_PATH
   kspec_from_params as Python calls it: NumPy-scalar k (9 types), kspec-call-forms                                P M
@@ -84,6 +96,10 @@ object they receive or create that can outlive one call:
                                          own sequence), file_labels (list), params (QueryParams,
                                          a mutable attrs object), parse_kw (dict), the QueryResults
                                          it returned earlier
+  gambit.sigs.dump_signatures /        the caller's container (SignatureList / SignatureArray /      -  -  -  -  -   api-written (one fresh container and
+    HDF5Signatures.create (writer of     AnnotatedSignatures and its optional kmerspec), the h5py                        one new file per writing form; the
+    a pre-computed source, run before    file it writes; module state of gambit.sigs / gambit.kmers                      FILE is then shared by every command
+    the command line reads the file)     (DEFAULT_KMERSPEC) it may fall back on                                          line that names it)
   a = reused by >= 2 calls whose other arguments differ (other database / parameters / size: the 'extra' database variant
   holds two more signatures than genomes), in both orders (scripts are also run reversed);  b = compared after every call
   with a copy taken before (files: sha1; objects: vars() / observable fields; process-wide state: process_state());
@@ -116,6 +132,8 @@ RULE = ('dist/query/tree/create: one command line = (kind of query source, kind 
         'integer ids, k attribute as int8/int32/uint8, prefix lower-case/bytes, 64-bit values, gzip, metadata, 0/1/12 '
         'signatures; database with .db/.h5 extensions), form = spelling / order of the options, GAMBIT_DB_PATH, -f '
         'json/archive, --strict, output to a pre-existing file or standard output, a real `python -m gambit` process; '
+        'qv/rv/sv = api:<container>:<ks|none>:<bare|annot>:<dump|create>: the file was saved through gambit.sigs from that '
+        'container, with / without its optional kmerspec argument (qp/rp/sp = what the signatures were built with); '
         'kspec: ktype/call = NumPy-scalar k and keyword call forms; api: one direct call of gambit.query.query_parse '
         '(database loading path, params/kwargs, labels, parse_kw).  Same non-triviality rule; api: always.  '
         'seq: one script = 2-6 steps {cmd: dist|query|tree|create|kspec, c: a case of that kind; qslot/rslot/sslot/dbslot: the '
@@ -126,7 +144,8 @@ RULE = ('dist/query/tree/create: one command line = (kind of query source, kind 
         'least two calls)')
 TRUSTED = ['harness/c14.py: synthetic genomes, the pure-Python k-mer/Jaccard oracle used to recognise which parameters '
            'an output was computed with (tolerance 1.01e-4, candidates checked to be >= 1e-3 apart), construction of '
-           'signature files (dump_signatures) and of small databases (SQLAlchemy models) from the harness\'s own k-mer sets',
+           'signature files (dump_signatures) and of small databases (SQLAlchemy models) from the harness\'s own k-mer sets '
+           '(the api-written streams put every other public writing form of gambit.sigs under test instead of trusting it)',
            'the commands are run with -c 1 and os.cpu_count() patched to 1 (one worker process per pool instead of 16; '
            'pools are C13\'s subject)',
            'click: option parsing, CliRunner, ClickException -> exit status 1 with "Error: <message>"; lazy opening of '
@@ -140,6 +159,11 @@ TRUSTED = ['harness/c14.py: synthetic genomes, the pure-Python k-mer/Jaccard ora
            'caller\'s objects, shutil for rewriting a shared path in place']
 ASSUMPTIONS = ['signature files and databases given on the command line are loadable (C12 covers foreign files); '
                '--prefix values are ASCII; k <= 32',
+               'the parameters of a pre-computed source are those its signatures were BUILT with (the harness builds them from its '
+               'own k-mer sets), also when the file was saved through the public API from a container that was not told them '
+               '(api:...:none:... forms); when the API refuses to save such a container (code as found: AttributeError) there is '
+               'nothing to compare: the command is run on whatever was left at the path and judged by the predicate alone; '
+               'a container that WAS told its parameters is expected to be saved (else: correspondence broken, not a violation)',
                'the repaired query command (repo_fixes/C14.diff: ClickException when the -s file\'s parameters differ '
                'from the database\'s) is the algorithm the query theorems and the model comparison are about; the '
                'command as found is kept as query_cmd false with C14_query_sigfile_refuted',
@@ -362,6 +386,66 @@ VARIANTS = ('plain', 'created', 'intids', 'k_i1', 'k_i4', 'k_u1', 'p_lower', 'p_
 DB_VARIANTS = ('plain', 'altext', 'k_i4')
 
 
+#: how ANOTHER PROGRAM writes a file of pre-computed signatures through the public API of gambit.sigs (the harness's plain
+#: file is one of these forms: list / ks / annot / dump): 'api:<container>:<ks|none>:<bare|annot>:<dump|create>' =
+#: the in-memory container the signatures are collected in x whether its OPTIONAL kmerspec argument is given x bare or
+#: wrapped in AnnotatedSignatures (string ids) x written with dump_signatures() or HDF5Signatures.create().
+#: The signatures are the harness's own k-mer sets under PARAMS[pi] in every form: what the file holds was built with
+#: PARAMS[pi] whatever the container was told.
+API_CONTAINERS = ('list', 'array', 'arrays', 'copy', 'subset')
+API_FORMS = tuple(f'api:{c}:{s}:{w}:{f}' for c in API_CONTAINERS for s in ('ks', 'none') for w in ('bare', 'annot')
+                  for f in ('dump', 'create'))
+
+
+def is_api_form(variant):
+	return isinstance(variant, str) and variant.startswith('api:')
+
+
+def write_api_sigfile(path, side, pi, variant):
+	"""save the k-mer sets of one side under PARAMS[pi] the way `variant` says (may raise: the API refuses)"""
+	import numpy as np
+	import h5py
+	from gambit.kmers import KmerSpec
+	from gambit.sigs import SignatureList, SignatureArray, AnnotatedSignatures, dump_signatures
+	from gambit.sigs.base import BOUNDS_DTYPE
+	from gambit.sigs.hdf5 import HDF5Signatures
+	_, cont, stated, wrap, writer = variant.split(':')
+	k, p = PARAMS[pi]
+	ks = KmerSpec(k, p)
+	given = ks if stated == 'ks' else None
+	arrs = [np.array(sorted(x), dtype=ks.index_dtype) for x in sigs_of(side, pi)]
+	if cont == 'list':
+		sigs = SignatureList(arrs, given)
+	elif cont == 'array':
+		sigs = SignatureArray(arrs, given)
+	elif cont == 'arrays':
+		bounds = np.cumsum([0] + [len(a) for a in arrs]).astype(BOUNDS_DTYPE)
+		sigs = SignatureArray.from_arrays(np.concatenate(arrs), bounds, given)
+	elif cont == 'copy':
+		sigs = SignatureArray(SignatureList(arrs, given))   # the parameters are taken over from the wrapped container
+	else:
+		sigs = SignatureArray(arrs + arrs[:1], given)[list(range(len(arrs)))]   # a selection keeps its parent's parameters
+	if wrap == 'annot':
+		sigs = AnnotatedSignatures(sigs, [n for n, _ in S['genomes'][side]])
+	if writer == 'dump':
+		dump_signatures(path, sigs)
+	else:
+		with h5py.File(path, 'w') as f:
+			HDF5Signatures.create(f, sigs)
+
+
+def unsaved(c):
+	"""the API refused to save a source of the case (a container that was not told its parameters): there are no pre-computed
+	signatures to compare; the command is still run on whatever the failed call left at the path and judged by the
+	property predicate alone (an error, nothing written -- or the sides that WERE compared agree)"""
+	refused = S.get('save_refused') or {}
+	for on, pkey, vkey, side in (('qs' in c.get('q', ()), 'qp', 'qv', 'q'), ('rs' in c.get('r', ()), 'rp', 'rv', 'r'),
+	                             ('sig' in c.get('src', ()), 'sp', 'sv', 'q')):
+		if on and is_api_form(c.get(vkey)) and (side, c[pkey], c[vkey]) in refused:
+			return True
+	return False
+
+
 def sel_sets(sets, variant, side):
 	"""the k-mer sets a signature-file variant holds, in file order"""
 	if variant == 'n0':
@@ -413,8 +497,19 @@ def sigfile(side, pi, variant='plain'):
 	"""path of the signature file of the query / reference genomes under PARAMS[pi] (None: it could not be made)"""
 	key = (side, pi) if variant in (None, 'plain') else (side, pi, variant)
 	if key not in S['sigfile']:
-		path = os.path.join(S['W'], f'{side}sigs_{pi}' + ('' if len(key) == 2 else '_' + variant) + '.gs')
-		if variant == 'created':
+		path = os.path.join(S['W'], f'{side}sigs_{pi}' + ('' if len(key) == 2 else '_' + variant.replace(':', '-')) + '.gs')
+		if is_api_form(variant):
+			try:
+				write_api_sigfile(path, side, pi, variant)
+			except Exception as e:
+				if variant.split(':')[2] == 'ks':
+					# the container was told its parameters: the public API is expected to save it
+					S['sigfile'][key] = None
+					S['create_failed'] = f'gambit.sigs ({variant}): {type(e).__name__}: {e}'
+					return None
+				# not told: refusing to write a file that would have to claim SOME parameters is the correct outcome
+				S['save_refused'][key] = f'{type(e).__name__}: {e}'
+		elif variant == 'created':
 			# the real pipeline: the file is the output of `gambit signatures create` on the genome files
 			k, p = PARAMS[pi]
 			if pi == 4:
@@ -595,6 +690,7 @@ def setup(ctx):
 		S['files'][side + 'l'] = lp
 
 	S['sigfile'] = {}
+	S['save_refused'] = {}
 	S['db'] = {}
 	S['slots'] = {}
 	S['bad'] = {}
@@ -1063,7 +1159,7 @@ def out_of_model(c):
 	"""inputs the model of the commands does not describe (judged by the property predicate and the declarative
 	specification only): signature files without signatures; pre-computed signatures with k <= 4, whose 8-bit k-mer
 	indices the distance kernel refuses with a ValueError when a comparison is attempted (C02's subject)"""
-	if 'n0' in (c.get('qv'), c.get('rv'), c.get('sv')) or c.get('bad'):
+	if 'n0' in (c.get('qv'), c.get('rv'), c.get('sv')) or c.get('bad') or unsaved(c):
 		return True
 	return any(isinstance(c.get(f), int) and PARAMS[c[f]][0] <= 4 for f in ('qp', 'rp', 'db', 'sp'))
 
@@ -1072,7 +1168,7 @@ def eval_dist(c0, c, m, sp):
 	"""run one dist command line -> dict(pipeline=...) when a source could not be made, else what judge() takes"""
 	args, env, out = dist_args(c)
 	if args is None:
-		return dict(pipeline=f'case {c0}: gambit signatures create did not produce the signature file: {S.get("create_failed")}')
+		return dict(pipeline=f'case {c0}: a signature file could not be produced: {S.get("create_failed")}')
 	ex, err, text = invoke(args, env=env, proc=bool(fopt(c, 'proc')))
 	mr = dec_run(m)
 	want = ([tuple(st[1:]) for st in mr['steps'] if st[0] == 'compare'] or [None])[0]
@@ -1081,7 +1177,8 @@ def eval_dist(c0, c, m, sp):
 	nsrc = ('qs' in c['q']) + ('rs' in c['r'] or 'db' in c['r']) + (c.get('k') is not None or c.get('prefix') is not None)
 	outcome = 'refused-mismatch' if obs['err'] in MISMATCH else 'refused-usage' if ex else 'ran'
 	return dict(obs=obs, unid=unid, mr=mr, wf=bool(sp[0]), spec=ks_index(sp[1][0]) if sp[1] else None, nt=nsrc >= 2,
-	            expect_refusal=False if c.get('bad') else None, domain=not out_of_model(c), outcome=outcome, result=wt)
+	            expect_refusal=False if c.get('bad') or unsaved(c) else None, domain=not out_of_model(c), outcome=outcome, result=wt,
+	            unsaved=unsaved(c))
 
 
 def run_dist(ctx, cases):
@@ -1095,8 +1192,12 @@ def run_dist(ctx, cases):
 			ctx.case(c0, nontrivial=False)
 			ctx.broke('dist: pipeline', e['pipeline'])
 			continue
-		judge(pend, c0, e['obs'], e['unid'], e['mr'], e['wf'], e['spec'], e['nt'], domain=e['domain'])
+		judge(pend, c0, e['obs'], e['unid'], e['mr'], e['wf'], e['spec'], e['nt'], expect_refusal=e['expect_refusal'], domain=e['domain'])
 		ctx.count('dist:' + e['outcome'])
+		if e['unsaved']:
+			ctx.count('dist:signatures-without-stated-parameters-not-saved-by-the-api (command run on what was left: predicate only)')
+		elif any(is_api_form(c.get(f)) and c[f].split(':')[2] == 'none' for f in ('qv', 'rv', 'sv')):
+			ctx.count('dist:signatures-without-stated-parameters-SAVED-by-the-api (judged as what they were built with)')
 		if c.get('st'):
 			ctx.count(f'dist[{c["st"]}]:' + (e['outcome'] if e['obs']['exit'] or not e['unid'] else 'ran-unrecognised'))
 	judge_batch(ctx, 'dist', pend)
@@ -1185,7 +1286,7 @@ def observe_query(c, exit_status, err, text):
 def eval_query(c0, c, m, sp):
 	args, env, out = query_args(c)
 	if args is None:
-		return dict(pipeline=f'case {c0}: gambit signatures create did not produce the signature file: {S.get("create_failed")}')
+		return dict(pipeline=f'case {c0}: a signature file could not be produced: {S.get("create_failed")}')
 	ex, err, text = invoke(args, env=env, proc=bool(fopt(c, 'proc')))
 	wt = written_text(c, out)
 	obs, unid = observe_query(c, ex, err, wt)
@@ -1193,7 +1294,8 @@ def eval_query(c0, c, m, sp):
 	outcome = 'refused-mismatch' if obs['err'] in MISMATCH else 'refused-usage' if ex else 'ran'
 	vec = closest_distances(wt, fopt(c, 'outfmt')) if wt is not None and wt.strip() else None
 	return dict(obs=obs, unid=unid, mr=dec_run(m), wf=bool(sp[0]), spec=ks_index(sp[1][0]) if sp[1] else None, nt=nt,
-	            expect_refusal=False if c.get('bad') else None, domain=not out_of_model(c), outcome=outcome, result=vec)
+	            expect_refusal=False if c.get('bad') or unsaved(c) else None, domain=not out_of_model(c), outcome=outcome, result=vec,
+	            unsaved=unsaved(c))
 
 
 def run_query(ctx, cases):
@@ -1207,8 +1309,12 @@ def run_query(ctx, cases):
 			ctx.case(c0, nontrivial=False)
 			ctx.broke('query: pipeline', e['pipeline'])
 			continue
-		judge(pend, c0, e['obs'], e['unid'], e['mr'], e['wf'], e['spec'], e['nt'], domain=e['domain'])
+		judge(pend, c0, e['obs'], e['unid'], e['mr'], e['wf'], e['spec'], e['nt'], expect_refusal=e['expect_refusal'], domain=e['domain'])
 		ctx.count('query:' + e['outcome'])
+		if e['unsaved']:
+			ctx.count('query:signatures-without-stated-parameters-not-saved-by-the-api (command run on what was left: predicate only)')
+		elif any(is_api_form(c.get(f)) and c[f].split(':')[2] == 'none' for f in ('qv', 'rv', 'sv')):
+			ctx.count('query:signatures-without-stated-parameters-SAVED-by-the-api (judged as what they were built with)')
 		if c.get('st'):
 			ctx.count(f'query[{c["st"]}]:' + (e['outcome'] if e['obs']['exit'] or not e['unid'] else 'ran-unrecognised'))
 	judge_batch(ctx, 'query', pend)
@@ -1423,7 +1529,7 @@ def run_api(ctx, cases):
 
 # ---- one fresh process per script ------------------------------------------------------------------------------------
 #: what a script's process changes in the harness's own bookkeeping and hands back (files it made, parameter sets it registered)
-MIRROR = ('slots', 'sigfile', 'db', 'bad', 'n', 'rewrites', 'create_failed')
+MIRROR = ('slots', 'sigfile', 'db', 'bad', 'n', 'rewrites', 'create_failed', 'save_refused')
 
 
 def start_template_process():
@@ -2133,6 +2239,46 @@ def gen_query_variants(ctx, n):
 		yield c
 
 
+API_SCENARIOS = ('qs-genomes', 'genomes-rs', 'qs-rs', 'rs-qs', 'qs-db', 'qs-genomes-options', 'qs-square-options', 'both', 'query')
+
+
+def gen_api_written(ctx, per_form):
+	"""pre-computed signatures that another program saved through gambit.sigs -- EVERY writing form of API_FORMS (container x
+	optional kmerspec argument given / not given x bare / annotated x dump_signatures / HDF5Signatures.create) -- brought
+	together with a second source: genome files (parameters inferred from the file), a plain signature file, a database,
+	explicit options, a file written in another form.  per_form scenarios per form (all of them when per_form is None).
+	The case names what the signatures were BUILT with (qp / rp / sp); model, declarative spec and recognition of the
+	output are those of every other dist / query case"""
+	rng = ctx.rng
+	for form in API_FORMS:
+		scenarios = list(API_SCENARIOS) if per_form is None else rng.sample(API_SCENARIOS, per_form)
+		for sc in scenarios:
+			b = rng.randrange(NCORE)
+			a = b if rng.random() < 0.4 else rng.randrange(NFIXED)
+			other = rng.choice([f for f in API_FORMS if f != form])
+			d = dict(q=['qs'], qp=a, qv=form, r=None, rp=None, db=None, k=None, prefix=None)
+			if sc == 'qs-genomes':
+				d.update(r=rng.choice([['r'], ['rl']]))
+			elif sc == 'genomes-rs':
+				d = dict(q=rng.choice([['q'], ['ql']]), qp=None, r=['rs'], rp=a, rv=form, db=None, k=None, prefix=None)
+			elif sc == 'qs-rs':
+				d.update(r=['rs'], rp=b, rv='plain')
+			elif sc == 'rs-qs':
+				d = dict(q=['qs'], qp=b, qv='plain', r=['rs'], rp=a, rv=form, db=None, k=None, prefix=None)
+			elif sc == 'qs-db':
+				d.update(r=['db'], db=b, dbv=rng.choice(DB_VARIANTS))
+			elif sc == 'qs-genomes-options':
+				d.update(r=rng.choice([['r'], ['rl']]), k=PARAMS[b][0], prefix=PARAMS[b][1])
+			elif sc == 'qs-square-options':
+				d.update(r=['square'], k=PARAMS[b][0], prefix=PARAMS[b][1])
+			elif sc == 'both':
+				d.update(r=['rs'], rp=b, rv=other)
+			else:
+				yield 'query', dict(src=['sig'], sp=a, sv=form, db=b)
+				continue
+			yield 'dist', d
+
+
 def gen_proc(ctx, n):
 	"""a real `python -m gambit` process: its exit status and standard streams (query without -o writes to standard output)"""
 	rng = ctx.rng
@@ -2446,6 +2592,10 @@ def generate(ctx):
 		ctx.count('stream:query-sigfile-variants')
 		c['st'] = 'variants'
 		yield 'query', c
+	for kind, c in gen_api_written(ctx, ctx.pick(2, None)):
+		ctx.count(f'stream:{kind}-api-written-signatures')
+		c['st'] = 'api-written'
+		yield kind, c
 	for c in gen_api(ctx, ctx.pick(14, 150)):
 		ctx.count('stream:api-query_parse')
 		yield 'api', c
